@@ -149,6 +149,19 @@ fn cases(thorough: bool) -> Vec<Case> {
                 out.push(Case { via: seed.via, bytes: b, desc: format!("{}: byte {pos} := {s:#04x}", seed.name), class: "byte-substitution", late_reply: false });
             }
         }
+        if thorough && bytes.len() < 260 {
+            // two-edit neighbourhood: pairs of substitutions (strided) on the small seeds
+            for p1 in (0..bytes.len() - MARKER.len()).step_by(3) {
+                for p2 in (p1 + 1..bytes.len() - MARKER.len()).step_by(5) {
+                    for (s1, s2) in [(b'<', b'>'), (b'&', b'"'), (0x00u8, 0xffu8), (b']', b'<')] {
+                        let mut b = bytes.to_vec();
+                        b[p1] = s1;
+                        b[p2] = s2;
+                        out.push(Case { via: seed.via, bytes: b, desc: format!("{}: bytes {p1},{p2} := {s1:#04x},{s2:#04x}", seed.name), class: "byte-substitution", late_reply: false });
+                    }
+                }
+            }
+        }
         for (tree, what) in structural(&root) {
             let t = format!("{}{MARKER}", serialize(&tree, &[], seed.expanded));
             out.push(Case { via: seed.via, bytes: t.into_bytes(), desc: format!("{}: {what}", seed.name), class: "structural", late_reply: false });
